@@ -4,7 +4,7 @@ use crate::*;
 use crypto_bigint::{Concat, ConcatMixed, Int, Split, SplitMixed, Uint};
 use num_bigint::BigInt;
 
-type Mono = fn(&[u64], &[u64], &[u64]) -> CaseResult;
+pub(crate) type Mono = fn(&[u64], &[u64], &[u64]) -> CaseResult;
 
 /// (lo: L limbs, hi: H limbs) <-> wide: O = L + H limbs
 fn cs_mixed<const L: usize, const H: usize, const O: usize>(lo: &[u64], hi: &[u64], wide: &[u64]) -> CaseResult
@@ -31,7 +31,7 @@ where
 }
 
 /// equal halves: additionally `concat` / `split` and the `Concat` / `Split` traits
-fn cs_even<const L: usize, const O: usize>(lo: &[u64], hi: &[u64], wide: &[u64]) -> CaseResult
+pub(crate) fn cs_even<const L: usize, const O: usize>(lo: &[u64], hi: &[u64], wide: &[u64]) -> CaseResult
 where
     Uint<L>: ConcatMixed<Uint<L>, MixedOutput = Uint<O>> + Concat<Output = Uint<O>>,
     Uint<O>: SplitMixed<Uint<L>, Uint<L>> + Split<Output = Uint<L>>,
@@ -49,7 +49,7 @@ where
     Ok(())
 }
 
-fn cs_case(combos: Vec<(usize, usize, Mono)>) -> impl Fn(&mut Tape, &mut Case) -> CaseResult {
+pub(crate) fn cs_case(combos: Vec<(usize, usize, Mono)>) -> impl Fn(&mut Tape, &mut Case) -> CaseResult {
     move |t, c| {
         let (l, h, f) = combos[t.index(combos.len())];
         c.num("lo_limbs", l as u64);
